@@ -116,6 +116,46 @@ def case_attack_discrete(EoN, p):
     return None
 
 
+def case_attack_general(EoN, p):
+    """explicit Sk0 / phiS0 / phiR0: Attack_rate_discrete(n) = 1 - S(n)/N of EBCM_discrete with the same psihat;
+    Attack_rate_cts_time = lim R/N of EBCM with the same psihat"""
+    Pk = _pk(p); N = p['N']
+    Sk0 = {int(k): float(v) for k, v in p['Sk0'].items()}
+    items = sorted(Pk.items())
+    psihat = lambda x: sum(q * Sk0[k] * x ** k for k, q in items)
+    psihatP = lambda x: sum(k * q * Sk0[k] * x ** (k - 1) for k, q in items if k >= 1)
+    R0 = p['R0']
+    if p['kind'] == 'discrete':
+        n = p['n']
+        st, ar = O.call(lambda: (EoN.Attack_rate_discrete(Pk, p['p'], Sk0=Sk0, phiS0=p['phiS0'], phiR0=p['phiR0'], number_its=n),))
+        if st != 'ok':
+            return 'CRASH Attack_rate_discrete ' + ar
+        st, r = O.call(EoN.EBCM_discrete, N, psihat, psihatP, p['p'], p['phiS0'], phiR0=p['phiR0'], R0=R0, tmax=max(n, 1))
+        if st != 'ok':
+            return 'CRASH EBCM_discrete ' + r
+        want = 1 - r[1][n] / N
+        if not C.close(float(ar[0]), float(want), 1e-9):
+            return 'Attack_rate_discrete(Sk0, phiS0=%g, phiR0=%g, number_its=%d) = %.12g but 1 - S(%d)/N of EBCM_discrete = %.12g' % (p['phiS0'], p['phiR0'], n, ar[0], n, want)
+        return None
+    st, ar = O.call(lambda: (EoN.Attack_rate_cts_time(Pk, p['tau'], p['gamma'], number_its=3000, Sk0=Sk0, phiS0=p['phiS0'], phiR0=p['phiR0']),))
+    if st != 'ok':
+        return 'CRASH Attack_rate_cts_time ' + ar
+    tmax = 200.0
+    for _ in range(3):
+        st, r = O.call(EoN.EBCM, N, psihat, psihatP, p['tau'], p['gamma'], p['phiS0'], phiR0=p['phiR0'], R0=R0, tmax=tmax, tcount=5)
+        if st != 'ok':
+            return 'CRASH EBCM ' + r
+        if abs(r[2][-1]) < 1e-7 * N:
+            break
+        tmax *= 4
+    else:
+        return 'SKIP not converged'
+    lim = 1 - r[1][-1] / N
+    if abs(ar[0] - lim) > TOL:
+        return 'Attack_rate_cts_time(Sk0, phiS0=%g, phiR0=%g) = %.9g but 1 - S(%g)/N of EBCM = %.9g' % (p['phiS0'], p['phiR0'], ar[0], tmax, lim)
+    return None
+
+
 def case_attack_limit(EoN, p):
     """t -> infinity: Attack_rate_cts_time vs EBCM's R/N; Attack_rate_discrete vs EBCM_discrete's R/N"""
     Pk = _pk(p); N = p['N']; rho = p['rho']
@@ -307,7 +347,7 @@ def O_poly(c):
     return L.poly([F(x) for x in c])
 
 
-CASES = {'tree': case_tree, 'attack_discrete': case_attack_discrete, 'attack_limit': case_attack_limit,
+CASES = {'tree': case_tree, 'attack_discrete': case_attack_discrete, 'attack_limit': case_attack_limit, 'attack_general': case_attack_general,
          'attack_from_graph': case_attack_from_graph, 'tau0': case_tau0, 'gamma0': case_gamma0, 'rhs_spec': case_rhs_spec}
 
 
@@ -396,6 +436,13 @@ def oracle_cases(rng, tier):
             cases.append(('Attack_rate_discrete/exact', 'attack_discrete', {'Pk': pk, 'N': N, 'p': rng.choice([0.125, 0.25, 0.5, 0.75, 1.0]), 'rho': rho, 'n': n}))
         cases.append(('Attack_rate_discrete/limit', 'attack_limit', {'kind': 'discrete', 'Pk': pk, 'N': N, 'p': rng.choice([0.25, 0.5, 0.75]), 'rho': rho}))
         cases.append(('Attack_rate_cts_time/limit', 'attack_limit', {'kind': 'cts', 'Pk': pk, 'N': N, 'tau': rng.choice([0.25, 0.5, 1.0, 2.0]), 'gamma': rng.choice([0.5, 1.0, 2.0]), 'rho': rho, 'tmax': 200.0}))
+    for i in range(20 if thorough else 6):
+        Pk = rand_Pk(rng); pk = {str(k): float(v) for k, v in Pk.items()}
+        Sk0 = {str(k): rng.choice([0.5, 0.75, 0.875, 1.0]) for k in Pk}
+        phiS0 = rng.choice([0.5, 0.625, 0.75]); phiR0 = rng.choice([0.0625, 0.125, 0.25])
+        base = dict(Pk=pk, Sk0=Sk0, N=rng.choice([10, 100]), phiS0=phiS0, phiR0=phiR0, R0=rng.choice([0.0, 1.0]))
+        cases.append(('Attack_rate_discrete/exact-Sk0-phiS0-phiR0', 'attack_general', dict(base, kind='discrete', p=rng.choice([0.25, 0.5, 0.75]), n=rng.choice([1, 2, 5, 17]))))
+        cases.append(('Attack_rate_cts_time/limit-Sk0-phiS0-phiR0', 'attack_general', dict(base, kind='cts', tau=rng.choice([0.5, 1.0, 2.0]), gamma=rng.choice([0.5, 1.0]))))
     G = O.labelled(O.hetero_graph(rng, 12), rng); dG = O.graph_desc(G)
     for kind, rates in (('discrete', {'p': 0.5}), ('cts', {'tau': 0.75, 'gamma': 1.0})):
         cases.append(('Attack_rate_%s_from_graph/rho' % ('discrete' if kind == 'discrete' else 'cts_time'), 'attack_from_graph', dict(graph=dG, kind=kind, mode='rho', rho=0.25, **rates)))
